@@ -2,6 +2,7 @@
 import json
 import os
 
+import shape_machine
 import vf
 
 
@@ -51,6 +52,10 @@ def run(ctx):
     for line in open(trace):
         ev = json.loads(line)
         ops.add((ev.get("op", ev["e"]), ev.get("sp", ""), shape(ev.get("A")), shape(ev.get("B"))))
+    # operands with a history: the representation invariant (components.size()==rows, every row has columns entries) and the
+    # definitions of Transpose / Sub_Matrix / Return_Row/Column / M*v / v*M hold after every sequence of size-changing calls (spec/Shape.tla)
+    shape_rule, shape_events = shape_machine.run(ctx, probes=True, variants=["gcc"])
     ctx.count(ctx.cov["trace_events"], ops)
-    ctx.cov["rule"] = ("one event per (operation, spelling, operands); every shape triple (m,n,k)<=5 exhaustively, random up to 8, all pairings of "
+    ctx.cov["rule"] = ("objects with a history: " + shape_rule + " of spec/Shape.tla replayed in the real objects (%d events); " % shape_events +
+                       "one event per (operation, spelling, operands); every shape triple (m,n,k)<=5 exhaustively, random up to 8, all pairings of "
                        "shapes <=3 (quick) / <=4 (thorough) for definedness; distinct = distinct (operation, spelling, operand shapes)")
